@@ -64,6 +64,20 @@ func checkC06(r *evid.Run) {
 	}
 	defer pool.Close()
 	cfg, timeout := fsTier(r, "C06")
+	cfgs := []string{cfg}
+	if r.Tier != "thorough" {
+		// names the operating system refuses (longer than NAME_MAX) at every position of small forests; the
+		// thorough configuration has such a name in its alphabet
+		cfgs = append(cfgs, "MC_C06_long.cfg")
+	}
+	for _, cfg := range cfgs {
+		checkC06Model(r, pool, cfg, timeout)
+	}
+	r.Set("exhaustive", true)
+	r.Set("rule", "every forest up to the bound over plain names (incl. a dotted name and an over-long name) x extension lists (empty, suffix, whole name, overlapping, a directory-looking name) x initial targets (present, missing, a regular file) x 0-1 environment step (a root pre-created as file or directory) x up to 2 mkdir calls (so: mkdir twice) x {From-Markdown, From-Root, deprecated aliases}; each replayed in a jail with full before/after snapshots; non-trivial = at least 2 items")
+}
+
+func checkC06Model(r *evid.Run, pool *wproto.Pool, cfg string, timeout time.Duration) {
 	runFsModel(r, cfg, timeout, func(s *fsState) {
 		call := s.Hist[len(s.Hist)-1]
 		if call.Op != "mkdir" || call.Dry {
@@ -115,8 +129,6 @@ func checkC06(r *evid.Run) {
 			r.Count("drift_states", 1)
 		}
 	})
-	r.Set("exhaustive", true)
-	r.Set("rule", "every forest up to the bound over plain names (incl. a dotted name and an over-long name) x extension lists (empty, suffix, whole name, overlapping, a directory-looking name) x initial targets (present, missing, a regular file) x 0-1 environment step (a root pre-created as file or directory) x up to 2 mkdir calls (so: mkdir twice) x {From-Markdown, From-Root, deprecated aliases}; each replayed in a jail with full before/after snapshots; non-trivial = at least 2 items")
 }
 
 func targetIsFile(s *fsState) bool {
